@@ -746,6 +746,13 @@ func (v *Verifier) staticType(e Expr, ptypes map[string]types.Type, pkg string) 
 	switch x := e.(type) {
 	case *EIdent:
 		return ptypes[x.Name]
+	case *EUnary:
+		if x.Op == "&" {
+			if t := v.staticType(x.X, ptypes, pkg); t != nil {
+				return types.NewPointer(t)
+			}
+		}
+		return nil
 	case *EField:
 		t := v.staticType(x.X, ptypes, pkg)
 		if t == nil {
